@@ -14,6 +14,7 @@ type CacheEr interface {
 
 // name2Value
 type name2Value struct {
+	scope      string // 所属对象(如: 结构体路径, map 前缀), 同一对象内的字段才组成一组
 	validName  string
 	objName    string
 	fieldName  string
@@ -58,10 +59,12 @@ func (v *validCommon) initValid2FieldsMap(data *name2Value) {
 	if v.valid2FieldsMap == nil {
 		v.valid2FieldsMap = make(map[string][]*name2Value, 5)
 	}
-	if _, ok := v.valid2FieldsMap[data.validName]; !ok {
-		v.valid2FieldsMap[data.validName] = make([]*name2Value, 0, 2)
+	// 按 "所属对象+验证名" 分组, 防止切片元素/嵌套对象之间的字段被合并到一组
+	key := data.scope + "\x00" + data.validName
+	if _, ok := v.valid2FieldsMap[key]; !ok {
+		v.valid2FieldsMap[key] = make([]*name2Value, 0, 2)
 	}
-	v.valid2FieldsMap[data.validName] = append(v.valid2FieldsMap[data.validName], data)
+	v.valid2FieldsMap[key] = append(v.valid2FieldsMap[key], data)
 }
 
 // either 判断两者不能都为空
@@ -141,8 +144,8 @@ func (v *validCommon) valid(errBuf *strings.Builder) {
 		return
 	}
 
-	for validName, fieldInfos := range v.valid2FieldsMap {
-		validKey, _, _ := ParseValidNameKV(validName)
+	for _, fieldInfos := range v.valid2FieldsMap {
+		validKey, _, _ := ParseValidNameKV(fieldInfos[0].validName)
 		switch validKey {
 		case Either:
 			v.either(errBuf, fieldInfos)
